@@ -132,13 +132,23 @@ def run_bounded(exe, name, bound, shards=1, timeout=3600):
     procs = [subprocess.Popen([exe, 'bounded', name, str(bound), str(i), str(shards)], stdout=subprocess.PIPE,
                               stderr=subprocess.PIPE, text=True, env=envs[i]) for i in range(shards)]
     outs = []
-    for i, pr in enumerate(procs):
-        o, e = pr.communicate(timeout=timeout)
-        shutil.rmtree(envs[i]['XDG_DATA_HOME'], ignore_errors=True)
-        if pr.returncode != 0:
-            # a crash of the process itself (stack overflow, abort) is a violation of "returns normally"
-            raise DriverCrash('bounded %s: driver process died (exit %s): %s' % (name, pr.returncode, e[-1500:]))
-        outs.append(json.loads(o.strip().splitlines()[-1]))
+    try:
+        for i, pr in enumerate(procs):
+            o, e = pr.communicate(timeout=timeout)
+            if pr.returncode != 0:
+                # a crash of the process itself (stack overflow, abort) is a violation of "returns normally"
+                raise DriverCrash('bounded %s: driver process died (exit %s): %s' % (name, pr.returncode, e[-1500:]))
+            outs.append(json.loads(o.strip().splitlines()[-1]))
+    finally:
+        # whatever happened to one shard: no process and no scratch user-data directory is left behind
+        for i, pr in enumerate(procs):
+            if pr.poll() is None:
+                pr.kill()
+                try:
+                    pr.communicate(timeout=10)
+                except Exception:
+                    pass
+            shutil.rmtree(envs[i]['XDG_DATA_HOME'], ignore_errors=True)
     agg = {'check': name, 'bound': bound, 'cases': 0, 'nontrivial': 0, 'failures': [], 'samples': []}
     for o in outs:
         if 'error' in o:
